@@ -52,3 +52,51 @@ def satisfied(text, names, x, extra=None):
         return all(holds(value(l, env, extra), c, value(r, env, extra)) for l, c, r in map(split, lines(text)))
     except (ZeroDivisionError, ValueError, OverflowError, FloatingPointError):
         return None
+
+
+def term_scale(expr, names, x, extra=None):
+    """magnitude of the terms of an expression that is affine in the variables: |f(0)| + sum |coef_k * x_k|
+    (coefficients recovered by evaluating at the origin and at unit vectors); None when that evaluation fails"""
+    try:
+        zero = {n: 0.0 for n in names}
+        f0 = value(expr, zero, extra)
+        tot = abs(f0)
+        for n, xv in zip(names, x):
+            if n in expr:
+                e = dict(zero); e[n] = 1.0
+                tot += abs((value(expr, e, extra) - f0) * xv)
+        return tot if math.isfinite(tot) else None
+    except (ZeroDivisionError, ValueError, OverflowError, FloatingPointError, TypeError):
+        return None
+
+
+def holds3(lhs, cmp, rhs, eqtol=1e-8, band=1e-9, scale=None, floor=0.0):
+    """three-valued: equalities hold approximately (points are constructed on the manifold up to rounding);
+    inequalities within the boundary band are not judged (None).  `scale` is the magnitude of the terms involved
+    (so that the verdict does not depend on how an equation happens to be scaled); default 1+|lhs|+|rhs|"""
+    if not (math.isfinite(lhs) and math.isfinite(rhs)):
+        return None
+    scale = scale if scale else 1.0 + abs(lhs) + abs(rhs)      # term magnitude when known: the verdict must not depend on an equation's units
+    if cmp in ('=', '=='):
+        return abs(lhs - rhs) <= eqtol * scale + floor
+    if abs(lhs - rhs) <= band * scale + floor:
+        return None
+    return holds(lhs, cmp, rhs)
+
+
+def satisfied3(text, names, x, extra=None):
+    """conjunction over the lines: False if some line is decidedly false, None if undecidable, else True"""
+    env = env_of(names, x)
+    res = True
+    for line in lines(text):
+        l, c, r = split(line)
+        try:
+            sl, sr = term_scale(l, names, x, extra), term_scale(r, names, x, extra)
+            sc = (sl + sr) if (sl is not None and sr is not None) else None
+            # rounding floor: coordinates are only known to ~1e-12 of the largest coordinate of the point
+            h = holds3(value(l, env, extra), c, value(r, env, extra), scale=sc, floor=1e-12 * (1.0 + max(abs(v) for v in x)))
+        except (ZeroDivisionError, ValueError, OverflowError, FloatingPointError):
+            h = None
+        if h is False: return False
+        if h is None: res = None
+    return res
